@@ -249,6 +249,23 @@ def cubic_spline(
         # The root lies in the selected bin; rounding must not push it (and the derivative below) outside.
         outputs = torch.max(torch.min(outputs, input_right_cumwidths), input_left_cumwidths)
 
+        # The closed-form roots (and the almost-quadratic shortcut) lose accuracy through cancellation,
+        # badly so in single precision: polish them with Newton steps on the monotone cubic of the bin.
+        for _ in range(2):
+            shifted_outputs = outputs - input_left_cumwidths
+            residual = (
+                (inputs_a * shifted_outputs + inputs_b) * shifted_outputs + inputs_c
+            ) * shifted_outputs + (inputs_d - inputs)
+            slope = (
+                3 * inputs_a * shifted_outputs + 2 * inputs_b
+            ) * shifted_outputs + inputs_c
+            step = torch.where(
+                slope > 0, residual / slope.clamp(min=1e-30), torch.zeros_like(residual)
+            )
+            outputs = torch.max(
+                torch.min(outputs - step, input_right_cumwidths), input_left_cumwidths
+            )
+
         shifted_outputs = outputs - input_left_cumwidths
         logabsdet = -torch.log(
             (
